@@ -18,7 +18,9 @@ UPPER = ["Foo", "Bar", "Baz", "X", "Pose3", "Val", "K9", "Tensor", "TT", "Type",
 DEFAULTS = ['0', '1', '-9.81', '1e-9', '"a;b"', '"x,y"', '"hello world"', 'gtsam::Pose3()', 'f(1, 2)',
             '{1, 2, 3}', 'std::vector<int>{1,2}', "';'", "','", 'a::b::C', '(1+2)*3', 'Foo<int, double>()',
             'nullptr', 'true', 'ns::Kind::A', 'x[3]', '"(unbalanced in quotes"', 'A{B(1), C<2>()}', '-1',
-            'std::make_shared<Q>(1, "s")', 'sizeof(int)', '"}"', "'{'", '1 + 2', 'a ? b : c', 'M<N<3>>()']
+            'std::make_shared<Q>(1, "s")', 'sizeof(int)', '"}"', "'{'", '1 + 2', 'a ? b : c', 'M<N<3>>()',
+            # verbatim means verbatim: runs of blanks, tabs and line breaks inside the expression
+            '"two  spaces   here"', 'f(1,   2)', 'gtsam::Pose3(1,\n      2)', '"tab\there"', 'a  +\tb', '{ 1,\n2 }']
 HEADERS = ['a.h', 'gtsam/geometry/Pose3.h', 'x/y z.hpp', 'vector', 'my-lib/file_1.h']
 PARAM_NAMES = ['T', 'U', 'POSE', 'CALIBRATION', 'N', 'Val', 'TT', 'K', 'D', 'V']
 CONCRETE_BASIC = ['double', 'int', 'size_t', 'bool', 'float', 'char', 'unsigned char', 'string']
